@@ -647,9 +647,27 @@ func c06Convert(j *c06Judge) {
 				}
 			}
 			want = c06OptionalTarget(ctx, v)
-			if ctx.R.Intn(3) == 0 {
+			switch ctx.R.Intn(4) {
+			case 0:
 				want = []cty.Type{cty.List(want), cty.Map(want), cty.Tuple([]cty.Type{want})}[ctx.R.Intn(3)]
 				v = []cty.Value{cty.ListVal([]cty.Value{v}), cty.TupleVal([]cty.Value{v}), cty.ObjectVal(map[string]cty.Value{"k": v})}[ctx.R.Intn(3)]
+			case 1:
+				// the annotated object below TWO directly nested collection layers, reached through a
+				// null / absent / unknown position (where the type is taken from the constraint)
+				inner := want
+				want = []cty.Type{cty.List(cty.List(inner)), cty.Map(cty.List(inner)), cty.List(cty.Map(inner)), cty.Set(cty.List(inner)), cty.Map(cty.Map(inner))}[ctx.R.Intn(5)]
+				switch ctx.R.Intn(4) {
+				case 0:
+					v = cty.NullVal(cty.DynamicPseudoType)
+				case 1:
+					v = cty.NullVal(want.WithoutOptionalAttributesDeep())
+				case 2:
+					v = cty.UnknownVal(cty.DynamicPseudoType)
+				default:
+					// an object that lacks an optional attribute of that doubly nested type
+					want = cty.ObjectWithOptionalAttrs(map[string]cty.Type{"k": cty.String, "deep": want}, []string{"deep"})
+					v = cty.ObjectVal(map[string]cty.Value{"k": cty.StringVal("x")})
+				}
 			}
 		default:
 			want = c06RelatedTy(ctx, v.Type(), 0)
